@@ -22,6 +22,21 @@ import numpy as np
 from .astutil import call_name, u
 from .inteval import NotEvaluable
 
+class _TiedIndex:
+    """The index slot of max / min at a tie: the tensor library does not specify which of the tied positions it reports. Unused (the
+    value slot alone is read) it is harmless; any use of it is outside the fragment."""
+
+    def _no(self, *a, **k):
+        raise NotEvaluable("the index of a tied max / min is used")
+    __int__ = __index__ = __add__ = __radd__ = __sub__ = __rsub__ = __mul__ = __rmul__ = __lt__ = __le__ = __gt__ = __ge__ = __hash__ = _no
+
+    def __eq__(self, other):
+        raise NotEvaluable("the index of a tied max / min is used")
+
+
+TIED = _TiedIndex()
+
+
 class DivisionByZero(NotEvaluable):
     """A quotient whose divisor is zero at the evaluated point (0 / 0 = NaN in floating point): a finding, not a limit of the fragment."""
 
@@ -105,13 +120,19 @@ def teval(e: ast.AST, env: dict, leaf: Optional[Callable] = None, depth: int = 0
             if isinstance(e.op, ast.Mult):
                 return a * b
             if isinstance(e.op, ast.Div):
-                if _is_arr(b):
-                    if (b == 0).any():
-                        raise DivisionByZero(t[:60])
-                elif b == 0:
+                if _is_arr(b) or _is_arr(a):
+                    # element by element, as the tensor library does: x / 0 is a not-a-number ELEMENT (a later `where` may discard it;
+                    # if it reaches the result the comparison with the documented value fails)
+                    def _div(x_, y_):
+                        if y_ == 0:
+                            return float("nan")
+                        if isinstance(x_, float) or isinstance(y_, float):
+                            return x_ / y_
+                        return Fraction(x_) / y_
+                    return np.vectorize(_div, otypes=[object])(a, b)
+                if b == 0:
                     raise DivisionByZero(t[:60])
-                fa = np.vectorize(Fraction, otypes=[object])(a) if _is_arr(a) else Fraction(a)
-                return fa / b
+                return Fraction(a) / b
             if isinstance(e.op, ast.FloorDiv):
                 return a // b
             if isinstance(e.op, ast.Mod):
@@ -408,9 +429,7 @@ def _call(c: ast.Call, ev, t: str):
             for ix in np.ndindex(mv.shape[:-1]):
                 row = list(mv[ix])
                 best = max(row) if m == "max" else min(row)
-                if row.count(best) > 1:
-                    raise NotEvaluable("tie in max / min (index unspecified)")
-                vals[ix], idxs[ix] = best, Fraction(row.index(best))
+                vals[ix], idxs[ix] = best, (Fraction(row.index(best)) if row.count(best) == 1 else TIED)
             if keepdim:
                 vals, idxs = np.expand_dims(vals, a_), np.expand_dims(idxs, a_)
             return (vals, idxs)
